@@ -554,8 +554,9 @@ impl<D: Dispatcher> Conn<D> {
         let handler = self.handler;
         let state = self.state;
         let tx = self.tx.clone();
+        let correlation_id = msg.correlation_id();
 
-        self.submit_request::<_, ST>(async move {
+        self.submit_request::<_, ST>(correlation_id, async move {
           let dispatcher_ref = unsafe { &mut *dispatcher.get() };
 
           match dispatcher_ref.dispatch_message(msg, payload, state).await {
@@ -611,7 +612,7 @@ impl<D: Dispatcher> Conn<D> {
     Ok(())
   }
 
-  fn submit_request<F, ST>(&mut self, future: F) -> anyhow::Result<()>
+  fn submit_request<F, ST>(&mut self, correlation_id: Option<u32>, future: F) -> anyhow::Result<()>
   where
     F: Future<Output = anyhow::Result<()>> + 'static,
     ST: Service,
@@ -641,6 +642,7 @@ impl<D: Dispatcher> Conn<D> {
     let request_timeout = self.config.request_timeout;
 
     let tx = self.tx.clone();
+    let timeout_tx = self.tx.clone();
 
     let cancellation_token = self.cancellation_token.clone();
 
@@ -653,6 +655,14 @@ impl<D: Dispatcher> Conn<D> {
         },
         _ = tokio::time::sleep(request_timeout) => {
           error!(handler = handler, service_type = ST::NAME, "request timeout");
+
+          // The request is abandoned: tell the client which one, and close the connection rather than
+          // leaving the request unanswered on an open connection.
+          timeout_tx.close(Message::Error(ErrorParameters {
+            id: correlation_id,
+            reason: Timeout.into(),
+            detail: Some(StringAtom::from("request timeout")),
+          }));
         },
         _ = cancellation_token.cancelled() => {
           trace!(handler = handler, service_type = ST::NAME, "request cancelled");
